@@ -3,6 +3,7 @@ package sbom
 import (
 	"fmt"
 	"reflect"
+	"slices"
 	"sort"
 	"strings"
 
@@ -563,8 +564,8 @@ func (nl *NodeList) Equal(nl2 *NodeList) bool {
 	}
 
 	// Compare the flattened rootElements list
-	r1 := nl.RootElements
-	r2 := nl2.RootElements
+	r1 := slices.Clone(nl.RootElements)
+	r2 := slices.Clone(nl2.RootElements)
 	sort.Strings(r1)
 	sort.Strings(r2)
 	if !reflect.DeepEqual(r1, r2) {
